@@ -145,7 +145,49 @@ func d1GenSplitProps(r *Rng, n int, keepOne bool) J {
 	} else {
 		pr["ordering"] = "bogus"
 	}
+	// an optional key given as JSON null means the same as leaving it out
+	if _, has := pr["max"]; !has && r.chance(0.06) {
+		pr["max"] = nil
+	}
+	if _, has := pr["min"]; !has && r.chance(0.04) {
+		pr["min"] = nil
+	}
 	return pr
+}
+
+// d1CondFromJSON reads the split condition straight from the JSON props (documented defaults: ratio 0, min 0,
+// no max; a number given for min/max is truncated towards zero) — independent of the decoding helper
+func d1CondFromJSON(pr J) (ratio float64, min, max int, ok bool) {
+	max = math.MaxInt64
+	num := func(k string) (float64, bool, bool) {
+		v, has := pr[k]
+		if !has || v == nil {
+			return 0, false, true
+		}
+		switch x := v.(type) {
+		case float64:
+			return x, true, true
+		case int:
+			return float64(x), true, true
+		}
+		return 0, false, false
+	}
+	r0, hasR, okR := num("ratio")
+	mn, hasMin, okMin := num("min")
+	mx, hasMax, okMax := num("max")
+	if !okR || !okMin || !okMax {
+		return 0, 0, 0, false
+	}
+	if hasR {
+		ratio = r0
+	}
+	if hasMin {
+		min = int(mn)
+	}
+	if hasMax {
+		max = int(mx)
+	}
+	return ratio, min, max, true
 }
 
 type d1RandomSeedProps struct {
